@@ -1781,7 +1781,7 @@ impl<'input, T: Input> Scanner<'input, T> {
         while self.mark.col == indent && !self.input.next_is_z() {
             if indent == 0 {
                 self.input.lookahead(4);
-                if self.input.next_is_document_end() {
+                if self.input.next_is_document_indicator() {
                     break;
                 }
             }
